@@ -125,6 +125,9 @@ def observe_call(acc, ls, log, variant, eta, theta, label, wit):
     th2 = Fraction(float(theta))**2
     s_marked = sum(contrib[m] for m in marked)
     slack = Fraction(1, 10**12)
+    # the routine evaluates theta^2*total in double precision: besides the relative rounding (slack) the result is a multiple of the smallest
+    # denormal, so for indicators in the denormal range the threshold itself is only known to within that granularity
+    tiny = Fraction(1, 2**1073)
     ok = True
     if not marked:
         acc.violation('dorfler-nothing-marked', 'no contribution marked', wit)
@@ -137,10 +140,10 @@ def observe_call(acc, ls, log, variant, eta, theta, label, wit):
                           'an unmarked contribution %.17g exceeds a marked one %.17g' % (float(max(unmarked)), float(lo_marked)), wit)
             ok = False
         if total > 0:
-            if s_marked < th2 * total * (1 - slack):
+            if s_marked < th2 * total * (1 - slack) - tiny:
                 acc.violation('dorfler-bulk-not-reached', 'marked sum %.17g < theta^2*total %.17g' % (float(s_marked), float(th2 * total)), wit)
                 ok = False
-            if len(marked) > 1 and s_marked - lo_marked > th2 * total * (1 + slack):
+            if len(marked) > 1 and s_marked - lo_marked > th2 * total * (1 + slack) + tiny:
                 acc.violation('dorfler-not-shortest', 'marked set reaches theta^2*total without its smallest member '
                               '(%.17g vs %.17g)' % (float(s_marked - lo_marked), float(th2 * total)), wit)
                 ok = False
